@@ -145,9 +145,9 @@ impl VersaTilesReader {
 //@loopstart 1
 					let ghost cs0 = chunks@; let ghost ct0 = chunk.tiles@;
 					proof { assert(tile_ranges@[f].1.offset <= tile_ranges@[vi as int].1.offset); }
-//@after "chunk = Chunk::new(entry.1.offset);"
-						proof { f = vi as int; lemma_chunk_tiles_push(cs0, chunks@[chunks@.len() - 1]); assert(chunks@ =~= cs0.push(chunks@[chunks@.len() - 1])); }
 //@loopend 1
+					// (anchor-free since seed C01-r9: "a chunk was closed in this iteration" is read off the chunk list, not off a statement)
+					proof { if chunks@.len() > cs0.len() { f = vi as int; lemma_chunk_tiles_push(cs0, chunks@[chunks@.len() - 1]); assert(chunks@ =~= cs0.push(chunks@[chunks@.len() - 1])); } }
 					proof { assert(tile_ranges@.subrange(0, vi + 1) =~= tile_ranges@.subrange(0, vi as int).push(tile_ranges@[vi as int])); }
 //@at "if chunk.len() > 0"
 				let ghost cs1 = chunks@;
